@@ -206,6 +206,9 @@ def dtype_rule(chk, repo, rid):
 
 def run(chk, repo, tier):
     krylov_rules(chk, repo, 'C14')
+    from . import support
+    n5 = support.defassign_rules(chk, repo, 'C14.R5', {'krylov'}, {})
+    chk.floor('C14.R5', n5, 4, hard_min=4)
     chk.assume('A-linear-map: the matrix-free callback returns a vector of the length of its argument')
     chk.assume('documented domain: numiter >= 1, len(vstart) >= 1')
     chk.undecided += ['orthonormality of the Krylov vectors', 'realness / positivity of the coefficients',
